@@ -36,6 +36,7 @@ type Store struct {
 
 	// mid-commit capture (Pebble only): a crash clone is taken whenever a WAL file is about to be
 	// synced, i.e. between the write and the fsync of a commit.
+	TinyCache bool
 	capture   bool
 	capMu     sync.Mutex
 	capRNG    *rand.Rand
@@ -45,12 +46,17 @@ type Store struct {
 
 var pathCounter atomic.Uint64
 
-func pebbleOpts(fs vfs.FS) pebblev2.Option {
+func pebbleOpts(fs vfs.FS, tinyCache bool) pebblev2.Option {
 	return func(o *pebble.Options) error {
 		o.FS = fs
 		o.DisableAutomaticCompactions = true
 		o.MemTableSize = 32 << 20
 		o.CacheSize = 256 << 20
+		if tinyCache {
+			// every read of flushed data goes to the file: buffers handed to read callbacks are
+			// recycled right after the callback returns
+			o.CacheSize = 1
+		}
 		o.Logger = quietLogger{}
 		return nil
 	}
@@ -124,13 +130,13 @@ func (s *Store) onOp(op errorfs.Op) error {
 
 // FromFS builds a store on a given (cloned) file system.
 func (s *Store) FromFS(c *sim.Ctx, fs *vfs.MemFS) *Store {
-	n := &Store{Pebble: true, path: s.path, fs: fs}
+	n := &Store{Pebble: true, path: s.path, fs: fs, TinyCache: s.TinyCache}
 	n.open(c)
 	return n
 }
 
 func (s *Store) open(c *sim.Ctx) {
-	kv, err := pebblev2.New(s.path, pebbleOpts(errorfs.Wrap(s.fs, errorfs.InjectorFunc(s.onOp))))
+	kv, err := pebblev2.New(s.path, pebbleOpts(errorfs.Wrap(s.fs, errorfs.InjectorFunc(s.onOp)), s.TinyCache))
 	c.Must(err, "open pebble on memfs")
 	s.kv = kv
 }
@@ -142,7 +148,7 @@ func (s *Store) CrashImage(c *sim.Ctx) *Store {
 		cp := s.mem.Copy()
 		return &Store{mem: cp, kv: cp}
 	}
-	n := &Store{Pebble: true, path: s.path}
+	n := &Store{Pebble: true, path: s.path, TinyCache: s.TinyCache}
 	n.fs = s.fs.CrashClone(vfs.CrashCloneCfg{UnsyncedDataPercent: 0})
 	n.open(c)
 	return n
